@@ -1,6 +1,6 @@
 (* C01 — BFT agreement: no two correct nodes commit different blocks at a height.  Statement of record. *)
 From Coq Require Import NArith List Bool.
-From V Require Import U64 Extracted Bft BftNet BftSafety BftOldVariants.
+From V Require Import U64 Extracted Bft BftNet BftSafety BftOldVariants BftGen.
 Import ListNotations.
 Local Open Scope N_scope.
 
@@ -48,6 +48,31 @@ Theorem C01_old_stale_stored_message_forks :
   commits (vrun false true true dP 0 dI d2_acts) = [(0, (7, 9)); (2, (11, 12))] /\
   3 * byz_power dP [0; 1; 2] < fold_right N.add 0 dP.
 Proof. exact old_stale_message_forks. Qed.
+
+(* ---- the two decision functions the agreement argument turns on are tied to the source by THEOREM: gen/Extracted.v holds
+   lib.View.Less and bft.BFT.SafeNode translated statement by statement from the working tree on every run (field paths
+   flattened into parameters, nil tests into booleans, hashes compared by id); they are the functions the replica model uses. *)
+Theorem C01_source_view_order_is_the_model : forall h a b,
+  View_Less false h (vw_phase a) (vw_root a) (vw_round a) false h (vw_phase b) (vw_root b) (vw_round b) = view_less a b.
+Proof. exact src_view_less. Qed.
+Print Assumptions C01_source_view_order_is_the_model.
+Theorem C01_source_safe_node_is_the_model : forall h l m, src_safe_node h l m = safe_node l m.
+Proof. exact src_safe_node_is_model. Qed.
+Print Assumptions C01_source_safe_node_is_the_model.
+Theorem C01_source_safe_node_unlocks_only_under_a_higher_view : forall h l m hq,
+  m_high m = Some hq -> src_safe_node h l m = true ->
+  (q_block l = q_block hq /\ q_results l = q_results hq) \/ view_less (q_view l) (q_view hq) = true.
+Proof. exact src_safe_node_unlock_needs_higher_view. Qed.
+Theorem C01_source_view_order_is_a_strict_order :
+  (forall h p r o, View_Less false h p r o false h p r o = false) /\
+  (forall h1 p1 r1 o1 h2 p2 r2 o2 h3 p3 r3 o3,
+     View_Less false h1 p1 r1 o1 false h2 p2 r2 o2 = true -> View_Less false h2 p2 r2 o2 false h3 p3 r3 o3 = true ->
+     View_Less false h1 p1 r1 o1 false h3 p3 r3 o3 = true) /\
+  (forall h1 p1 r1 o1 h2 p2 r2 o2,
+     View_Less false h1 p1 r1 o1 false h2 p2 r2 o2 = false -> View_Less false h2 p2 r2 o2 false h1 p1 r1 o1 = false ->
+     h1 = h2 /\ p1 = p2 /\ r1 = r2 /\ o1 = o2).
+Proof. split; [exact src_view_less_irrefl | split; [exact src_view_less_trans | exact src_view_less_total]]. Qed.
+Print Assumptions C01_source_view_order_is_a_strict_order.
 
 (* non-vacuity: a full round with a Byzantine leader in which the three correct replicas commit *)
 Example C01_nonvacuous :
